@@ -378,3 +378,43 @@ func VP_C11_Lifecycle_k2_lca() { vpC11Lifecycle(2, true) }
 func VP_C11_Lifecycle_k3_lca() { vpC11Lifecycle(3, true) }
 func VP_C11_Lifecycle_k4()     { vpC11Lifecycle(4, false) }
 func VP_C11_Lifecycle_k4_lca() { vpC11Lifecycle(4, true) }
+
+// C11 (expiry): evidence expires only when it is older than BOTH limits.  An item that is too old by
+// blocks only (or by time only) is admitted, stays pending across a restart and across the next
+// block, and is still acceptable in a proposed block.
+func VP_C11_ExpiryNeedsBothLimits() {
+	height := int64(10)
+	byBlocks := vp.Bool("old-by-blocks-only")
+	var e *vpEnv
+	if byBlocks {
+		e = vpNewEnv(height, 3, 60*time.Minute) // height 5 is 5 blocks back (> 3), 5 minutes old (< 60)
+	} else {
+		e = vpNewEnv(height, 20, 2*time.Minute) // 5 blocks back (< 20), 5 minutes old (> 2)
+	}
+	pool, err := NewPool(e.db, e.ss, e.bs)
+	if err != nil {
+		panic(err)
+	}
+	ev := e.dve(0, 5, 1)
+	vp.Assert(pool.AddEvidence(ev) == nil, "C11.expiry.evidence-old-by-one-limit-only-is-admitted")
+	vp.Assert(pool.isPending(ev), "C11.expiry.evidence-old-by-one-limit-only-is-pending")
+	for step := 0; step < 2; step++ {
+		switch vp.Choice("then", 2) {
+		case 0: // restart on the same database
+			pool, err = NewPool(e.db, e.ss, e.bs)
+			if err != nil {
+				panic(err)
+			}
+		case 1: // the next block is committed without it
+			height++
+			pool.Update(e.advance(height), nil)
+		}
+		stillOne := (byBlocks && vpBlockTime(height).Sub(ev.Time()) <= 60*time.Minute) || (!byBlocks && height-ev.Height() <= 20)
+		if stillOne {
+			vp.Assert(pool.isPending(ev), "C11.expiry.pending-evidence-survives-until-committed-or-expired-by-both-limits")
+			vp.Assert(pool.CheckEvidence(types.EvidenceList{ev}) == nil, "C11.expiry.it-is-still-acceptable-in-a-block")
+			vp.Assert(pool.Size() == 1, "C11.expiry.it-is-still-counted")
+		}
+	}
+	vp.Reach("kept")
+}
